@@ -15,7 +15,8 @@ RULE = ("1-40 [thorough 120] epochs in random order with duplicates, times as fl
         "paired with its own velocity and uncertainty (covariance row/column); units as supplied; ivar == 1/sigma^2 or "
         "inv(cov); default t_ref == earliest retained time; copy() equal in every array and in t_ref; data[slc] == the "
         "corresponding observations. Non-trivial: unsorted input with >=3 epochs and (a dropped row, a duplicate time, "
-        "a covariance, or a non-default t_ref).")
+        "a covariance, or a non-default t_ref)."
+        ' Also: time input and t_ref on the tdb / tt / tai scales.')
 SHARDS = {"quick": 2, "thorough": 16}
 BUDGET = {"quick": 60, "thorough": 600}
 
